@@ -51,6 +51,7 @@ Ty == [
   AC2   |-> Arr("char", 2, 2, 1),
   AC3   |-> Arr("char", 3, 3, 1),
   AC4   |-> Arr("char", 4, 4, 1),
+  AC6   |-> Arr("char", 6, 6, 1),
   ACX   |-> Arr("char", 0, 0, 1),         \* char []
   APX   |-> Arr("ptr", 0, 0, 8),          \* char *[]
   MC    |-> Arr("AC3", 2, 6, 1),          \* char [2][3]
@@ -68,6 +69,8 @@ Ty == [
   U     |-> St("union", 8, 4, <<M("a", "int", 0), M("s", "AC4", 0), M("p", "P", 0)>>),
   \* struct SA { struct P ps[2]; char k; }
   SA    |-> St("struct", 20, 4, <<M("ps", "AP2", 0), M("k", "char", 16)>>),
+  \* struct SC { char s[6]; short z; }
+  SC    |-> St("struct", 8, 2, <<M("s", "AC6", 0), M("z", "short", 6)>>),
   AS0   |-> St("struct", 8, 4, <<M("q", "int", 0), M("r", "char", 4)>>),
   \* struct AS { struct { int q; char r; }; int t; }
   AS    |-> St("struct", 12, 4, <<M("", "AS0", 0), M("t", "int", 8)>>)
